@@ -3,6 +3,7 @@ From Coq Require Import Bool ZArith List.
 From K Require Import Lib.Types Model.Machine Model.Alu Model.Exec Spec.ISA Proofs.FlagProofs Proofs.AluProofs.
 From K Require Import Model.Bus Model.Cost Model.Addressing Proofs.RegProofs Proofs.StepProofs.
 From K Require Import Model.Cost Model.Addressing Model.Exec Proofs.MemProofs Proofs.StepProofs Proofs.CtlProofs Proofs.StepRefines.
+From K Require Import Proofs.StepRefines4 Proofs.StepRefinesL.
 Open Scope Z_scope.
 
 Theorem logic2_kernel :
@@ -97,6 +98,16 @@ Theorem step_shift_register :
     exists s', sem_ref (IAlu1 o z rd) 2 s = Some s' /\ step s = Ok n (set_opc (pc s) s').
 Proof. exact step_alu1_proof. Qed.
 
+(* AND.L / OR.L / XOR.L ERs,ERd (prefix 01F0): both instruction words in memory, any state *)
+Theorem step_logic_long :
+  forall s w1 w2 w3 w4 o rs rd n,
+    cpu_ok s -> bus_bytes_ok s -> fault s = false -> pc s mod 2 = 0 -> 0 <= pc s -> pc s + 4 < 4294967296 ->
+    mem_read SW s (pc s) = Some 0x01f0 -> mem_read SW s (pc s + 2) = Some w1 ->
+    decode_ref 0x01f0 w1 w2 w3 w4 = Some (IAlu2R o SL rs rd, 4) ->
+    cs KI 2 (post_fetch2 s) = Ok n (post_fetch2 s) ->
+    exists s', sem_ref (IAlu2R o SL rs rd) 4 s = Some s' /\ step s = Ok n (set_opc (pc s + 2) s').
+Proof. exact step_logic_l_proof. Qed.
+
 Print Assumptions logic2_kernel.
 Print Assumptions logic1_kernel.
 Print Assumptions shal_all_but_v.
@@ -105,3 +116,4 @@ Print Assumptions logic_rr_refines.
 Print Assumptions shift_refines.
 Print Assumptions step_logic_register.
 Print Assumptions step_shift_register.
+Print Assumptions step_logic_long.
